@@ -19,7 +19,10 @@ def confirm(seed: Path):
         if rc:
             res["error"] = out; return res
         env = dict(os.environ, PYTHONPATH=str(wt), PYTHONDONTWRITEBYTECODE="1")
-        demo = seed / "demo.py"
+        demo = seed / "demo.rebased.py" if (seed / "demo.rebased.py").exists() else seed / "demo.py"
+        patch = seed / "patch.rebased.diff" if (seed / "patch.rebased.diff").exists() and (seed / "patch.rebased.diff").stat().st_size > 0 else seed / "patch.diff"
+        res["patch_used"] = patch.name
+        res["demo_used"] = demo.name
         if demo.exists():
             dcmd = ["/venv/bin/python", str(demo)]
         else:
@@ -27,11 +30,11 @@ def confirm(seed: Path):
         rc, out = sh(dcmd, wt, env)
         res["demo_clean_rc"] = rc
         if rc: res["demo_clean_tail"] = out[-600:]
-        rc, out = sh(["git", "apply", str(seed / "patch.diff")], wt)
+        rc, out = sh(["git", "apply", str(patch)], wt)
         if rc:
-            rc, out = sh(["git", "apply", "--3way", str(seed / "patch.diff")], wt)
+            rc, out = sh(["git", "apply", "--3way", str(patch)], wt)
         if rc:
-            rc2, out2 = sh(["patch", "-p1", "--no-backup-if-mismatch", "-i", str(seed / "patch.diff")], wt)
+            rc2, out2 = sh(["patch", "-p1", "--no-backup-if-mismatch", "-i", str(patch)], wt)
             if rc2:
                 res["apply"] = "CONFLICT: " + out2[-300:]; return res
         res["apply"] = "ok"
@@ -57,8 +60,9 @@ if __name__ == "__main__":
         for r in ex.map(confirm, seeds):
             rp = r.pop("rebased_patch", None)
             out = Path(r["seed"]) / "confirm.json"
+            r["repo_head"] = subprocess.run(["git", "-C", "/repo", "rev-parse", "--short", "HEAD"], capture_output=True, text=True).stdout.strip()
             out.write_text(json.dumps(r, indent=1))
-            if rp is not None:
-                (Path(r["seed"]) / "patch.rebased.diff").write_text(rp)
+            if rp is not None and r.get("confirmed"):
+                (Path(r["seed"]) / "patch.head.diff").write_text(rp)
             print(Path(r["seed"]).parent.name, Path(r["seed"]).name, "CONFIRMED" if r.get("confirmed") else "NOT-CONFIRMED",
                   {k: v for k, v in r.items() if k in ("apply", "suite", "demo_clean_rc", "demo_patched_rc", "error")})
